@@ -237,7 +237,7 @@ def media_oracle(ctx, kind, st, data):
     delta = len(st.after) - len(st.before)
     for (k, at0, i, o0), (_, at1, _, o1) in zip(o0s, o1s):
         bad = False
-        if o0 <= off:
+        if o0 < off or (o0 == off and old > 0):
             bad = o1 != o0
         elif o0 >= off + old:
             ta = next((a for a in atoms0 if a["off"] <= o0 < a["off"] + a["size"]), None)
@@ -245,7 +245,7 @@ def media_oracle(ctx, kind, st, data):
             bad = o1 != o0 + delta or st.before[o0:o0 + n] != st.after[o1:o1 + n]
         if bad:
             ctx.violation("oracle", WHAT_MEDIA, dict(data, **{"class": "media"}, entry=[k.decode(), at0, i, o0, o1], region=[off, old],
-                                                      delta=delta, expected=o0 if o0 <= off else o0 + delta))
+                                                      delta=delta, expected=o0 if (o0 < off or (o0 == off and old > 0)) else o0 + delta))
             return
 
 
